@@ -155,3 +155,55 @@ func HarnessC20Registry() {
 	}
 	vCover("done")
 }
+
+
+// HarnessC20Values: what a custom function does to the value it received stays its own business, and what it
+// returns appears exactly as if that Go value had been passed as data.
+func HarnessC20Values() {
+	var got [][]any
+	rerr := RegisterArrFunc("grab", func(a []any, args ...any) []any {
+		// the function keeps what it got and then scribbles over the slices it was handed
+		cp := append([]any{}, a...)
+		got = append(got, cp)
+		for i := range a {
+			a[i] = "X"
+		}
+		for _, arg := range args {
+			if s, ok := arg.([]any); ok {
+				got = append(got, append([]any{}, s...))
+				for i := range s {
+					s[i] = "Y"
+				}
+			}
+		}
+		return cp
+	})
+	vAssert(rerr == nil, "first-registration-succeeds")
+	rerr = RegisterArrFunc("none", func(a []any, args ...any) []any { return nil })
+	vAssert(rerr == nil, "first-registration-succeeds")
+	var src, want string
+	switch vChoice("shape", 6) {
+	case 0: // the same array variable passed to two calls
+		src, want = "{{ v = [3, 9, 1] }}{{ v.grab() }}|{{ v.grab() }}|{{ v }}", "3, 9, 1|3, 9, 1|3, 9, 1"
+	case 1: // ... as an argument, twice
+		src, want = "{{ v = [3, 9] }}{{ [0].grab(v) }}{{ [0].grab(v).len() }}|{{ v }}", "01|3, 9"
+	case 2: // nested inside the receiver
+		src, want = "{{ v = [1, 2]; w = [v, v] }}{{ w.grab().len() }}{{ w.grab().len() }}|{{ w }}", "22|1, 2, 1, 2"
+	case 3: // a nil slice result is an empty array, as a nil slice in the data is
+		src, want = "{{ [1].none().len() }}|@each(x in [1].none())x@else E@end|{{ [1].none() ? \"T\" : \"F\" }}", "0| E|T"
+	case 4:
+		src, want = "{{ a = [5]; a = [1].none(); a.append(2) }}", "2"
+	default:
+		src, want = "{{ v = [1, 2] }}{{ v.grab().len() }}{{ v.contains(1) }}{{ v.len() }}", "212"
+	}
+	out, err := EvaluateString(src, nil)
+	vCover("rendered")
+	vAssert(err == nil, "registered-function-is-callable")
+	vAssert(out == want, "result-renders-as-if-passed-as-data")
+	for _, g := range got {
+		for _, e := range g {
+			_, isStr := e.(string)
+			vAssert(!isStr, "arguments-arrive-as-plain-go-values")
+		}
+	}
+}
